@@ -130,6 +130,9 @@ type dbImgObs struct {
 	Nested   []nestObs `json:"nested,omitempty"`
 	What     string    `json:"what,omitempty"` // last event before the boundary
 	Abs      string    `json:"abs,omitempty"`  // the image as a disk of Fs/Crash.v
+	// the recovered session killed again while idle (Open returned, nothing else happened), then opened once more
+	Again      *dbOpenRes `json:"again,omitempty"`
+	AgainChild string     `json:"again_child,omitempty"`
 }
 
 type nestObs struct {
@@ -149,9 +152,26 @@ type c02Case struct {
 	NoAbs bool     `json:"no_abs,omitempty"` // big sessions: the images are judged by the oracle only, not by the model
 	// observations
 	Images  []dbImgObs `json:"images"`
+	// asynchronous log only: images in which the newest log file holds records, with that file cut at byte lengths (the
+	// write buffer reaches the file in pieces whose ends fall anywhere in a record, depending on the record sizes)
+	WalCuts []dbImgObs `json:"wal_cuts,omitempty"`
 	NEvents int        `json:"n_events"`
 	Fatal   string     `json:"fatal,omitempty"`
 	Skipped string     `json:"skipped,omitempty"` // the tracing infrastructure failed for this case
+}
+
+// newestWal: name and size of the log file with the highest number in an image
+func newestWal(img string) (string, int64) {
+	wals, _ := filepath.Glob(filepath.Join(img, "wal", "*.wal"))
+	if len(wals) == 0 {
+		return "", 0
+	}
+	sort.Strings(wals)
+	st, err := os.Stat(wals[len(wals)-1])
+	if err != nil {
+		return "", 0
+	}
+	return filepath.Base(wals[len(wals)-1]), st.Size()
 }
 
 // imageFeatures: what kind of recovery work an image asks for (used to pick images for nested kills)
@@ -240,6 +260,14 @@ func (c *c02Case) Exec() {
 		feat string
 	}
 	var saved []savedImg
+	type cutCand struct {
+		path, file, what   string
+		size               int
+		acked, inflight, b int
+	}
+	var cutCands []cutCand
+	cutSeen := map[string]bool{}
+	c.WalCuts = nil
 	test := func(b int, what string) {
 		d := treeDigest(img) + fmt.Sprintf("|%d|%d", acked, inflight)
 		if seen[d] {
@@ -256,7 +284,27 @@ func (c *c02Case) Exec() {
 		}
 		so, cerr := runChild("c02open", dbOpenArgs{Dir: cp, Opts: c.Opts, Keys: c.Keys}, 30*time.Second)
 		ob.Res, ob.Child = parseOpen(so, cerr)
+		if ob.Child == "" && ob.Res.Err == "" && len(c.Images)%2 == 0 {
+			cpk := filepath.Join(dir, "cpk", filepath.Base(root))
+			os.RemoveAll(filepath.Join(dir, "cpk"))
+			must(os.MkdirAll(filepath.Join(dir, "cpk"), 0755))
+			must(copyTree(img, cpk))
+			os.Setenv("VERIF_NO_CLOSE", "1")
+			runChild("c02open", dbOpenArgs{Dir: cpk, Opts: c.Opts, Keys: c.Keys}, 30*time.Second)
+			os.Unsetenv("VERIF_NO_CLOSE")
+			so2, cerr2 := runChild("c02open", dbOpenArgs{Dir: cpk, Opts: c.Opts, Keys: c.Keys}, 30*time.Second)
+			r2, ch2 := parseOpen(so2, cerr2)
+			ob.Again, ob.AgainChild = &r2, ch2
+		}
 		c.Images = append(c.Images, ob)
+		if c.Opts.AsyncWAL && len(cutCands) < 2 {
+			if name, size := newestWal(img); size > 20 && !cutSeen[name] {
+				cutSeen[name] = true
+				sp := filepath.Join(dir, fmt.Sprintf("cutcand%d", len(cutCands)))
+				must(copyTree(img, sp))
+				cutCands = append(cutCands, cutCand{path: sp, file: name, size: int(size), acked: acked, inflight: inflight, b: b, what: what})
+			}
+		}
 		if c.Nest > 0 {
 			feat := imageFeatures(img)
 			if !featSeen[feat] || len(saved) < 4*c.Nest {
@@ -372,6 +420,30 @@ func (c *c02Case) Exec() {
 		c.Skipped = "replaying the traced events does not reproduce the final directory: trace not understood (" + d + ")"
 		c.Images = nil
 		return
+	}
+	for _, cc := range cutCands {
+		data, err := os.ReadFile(filepath.Join(cc.path, "wal", cc.file))
+		if err != nil {
+			continue
+		}
+		var lens []int
+		for n := len(data) - 1; n >= 8 && n >= len(data)-40; n-- {
+			lens = append(lens, n)
+		}
+		for n := 8; n < len(data)-40; n += 1 + len(data)/23 {
+			lens = append(lens, n)
+		}
+		for _, n := range lens {
+			cp := filepath.Join(dir, "cpc", filepath.Base(root))
+			os.RemoveAll(filepath.Join(dir, "cpc"))
+			must(os.MkdirAll(filepath.Join(dir, "cpc"), 0755))
+			must(copyTree(cc.path, cp))
+			must(os.WriteFile(filepath.Join(cp, "wal", cc.file), data[:n], 0644))
+			ob := dbImgObs{Boundary: cc.b, Acked: cc.acked, InFlight: cc.inflight, What: fmt.Sprintf("%s; the newest log file %s cut at %d of %d bytes", cc.what, cc.file, n, len(data))}
+			so, cerr := runChild("c02open", dbOpenArgs{Dir: cp, Opts: c.Opts, Keys: c.Keys}, 30*time.Second)
+			ob.Res, ob.Child = parseOpen(so, cerr)
+			c.WalCuts = append(c.WalCuts, ob)
+		}
 	}
 	if c.Nest > 0 {
 		prio := func(f string) int {
@@ -526,10 +598,27 @@ func (c *c02Case) Oracle() (bool, string) {
 	if c.Fatal != "" {
 		return false, c.Fatal
 	}
+	for _, im := range c.WalCuts {
+		where := fmt.Sprintf("kill after event %d [%s]", im.Boundary, im.What)
+		if ok, m := c.checkImage(where, im.Acked, im.InFlight, im.Res, im.Child); !ok {
+			return false, m
+		}
+	}
 	for _, im := range c.Images {
 		where := fmt.Sprintf("kill after event %d [%s]", im.Boundary, im.What)
 		if ok, m := c.checkImage(where, im.Acked, im.InFlight, im.Res, im.Child); !ok {
 			return false, m
+		}
+		if im.Again != nil {
+			w2 := where + ", recovered, the recovered session killed while idle"
+			if im.AgainChild != "" || im.Again.Err != "" {
+				return false, fmt.Sprintf("%s: the next Open failed: %s%s", w2, im.AgainChild, im.Again.Err)
+			}
+			for i := range c.Keys {
+				if im.Again.Found[i] != im.Res.Found[i] || !bytes.Equal(im.Again.Vals[i], im.Res.Vals[i]) {
+					return false, fmt.Sprintf("%s: key %q reads %q (found=%v), the recovered session itself read %q (found=%v)", w2, c.Keys[i], trunc(im.Again.Vals[i]), im.Again.Found[i], trunc(im.Res.Vals[i]), im.Res.Found[i])
+				}
+			}
 		}
 		for _, n := range im.Nested {
 			w2 := fmt.Sprintf("%s, then recovery killed after its event %d [%s]", where, n.Boundary, n.What)
@@ -721,7 +810,7 @@ func genC02(r *rand.Rand, tier string) []Case {
 	for i := 0; i < (n+3)/4; i++ {
 		cases = append(cases, genTinyCrashCase(r, false, 0), genTinyCrashCase(r, false, 0))
 	}
-	cases = append(cases, genHotKeyCrashCase(r, false), genShrinkCrashCase(r, 0))
+	cases = append(cases, genHotKeyCrashCase(r, false), genShrinkCrashCase(r, 0), genDeleteTailCrashCase(r, false))
 	return cases
 }
 
@@ -744,6 +833,25 @@ func genBigGenerationCase(r *rand.Rand) *c02Case {
 	c.Steps = append(c.Steps, dbStep{Op: "put", K: keys[2], V: huge}, dbStep{Op: "put", K: keys[0], V: []byte("after the huge one")})
 	c.Steps = append(c.Steps, dbStep{Op: "put", K: keys[3], V: []byte("after-the-cut")}, dbStep{Op: "rotate"},
 		dbStep{Op: "put", K: keys[0], V: []byte("second")}, dbStep{Op: "rotate"}, dbStep{Op: "del", K: keys[3]})
+	return c
+}
+
+// sessions whose last WAL generation holds nothing but deletes (and rejected calls) when the kill images are taken:
+// what recovery does with a log that has no upsert in it
+func genDeleteTailCrashCase(r *rand.Rand, rejected bool) *c02Case {
+	keys := [][]byte{[]byte("a"), []byte("b"), []byte("c")}
+	c := &c02Case{Keys: keys, NoAbs: rejected}
+	c.Opts = dbOpts{MemstoreBytes: 1 << 30, Threshold: 10, MaxSize: 5 << 30, RatioPct: 100, WBuf: 4096, RBuf: 4096}
+	for i, k := range keys {
+		c.Steps = append(c.Steps, dbStep{Op: "put", K: k, V: []byte(fmt.Sprintf("old-%d-%d", i, r.Intn(100)))})
+	}
+	c.Steps = append(c.Steps, dbStep{Op: "rotate"})
+	for _, i := range r.Perm(3)[:2+r.Intn(2)] {
+		if rejected {
+			c.Steps = append(c.Steps, dbStep{Op: "putb", K: keys[i], V: []byte{}, VNil: r.Intn(2) == 0}, dbStep{Op: "putb", K: []byte{}, V: []byte("v")})
+		}
+		c.Steps = append(c.Steps, dbStep{Op: []string{"del", "delb"}[r.Intn(2)], K: keys[i]})
+	}
 	return c
 }
 
